@@ -11,7 +11,8 @@ from . import codec as C
 class Responder(ScriptNode):
     """conforming RTS/CTS responder (and BAM receiver) at address `addr`"""
 
-    def __init__(self, bus, sim, rng, addr, fd, grant='random', holds=(0, 3), reply=(0.0, 0.15), hold_between=0.3, grants=None, own_max=255):
+    def __init__(self, bus, sim, rng, addr, fd, grant='random', holds=(0, 3), reply=(0.0, 0.15), hold_between=0.3, grants=None, own_max=255,
+                 late_after_hold=None):
         super().__init__(bus, 'REF')
         self.sim, self.rng, self.addr, self.fd = sim, rng, addr, fd
         self.grant_policy = grant          # 'random' | 'max' | 'one' | 'list'
@@ -20,6 +21,7 @@ class Responder(ScriptNode):
         self.reply = reply
         self.hold_between = hold_between
         self.own_max = own_max
+        self.late_after_hold = late_after_hold      # (lo, hi): the grant after the last hold comes this late (> Th: the originator gives up)
         self.rx = {}
         self.done = []                     # (sa, pgn, payload)
         self.cts_sent = []
@@ -100,9 +102,12 @@ class Responder(ScriptNode):
     def _plan_grant(self, st, first):
         t = self._delay()
         nh = self.rng.randint(*self.holds) if (first or self.rng.random() < self.hold_between) else 0
-        for _ in range(nh):
+        for i in range(nh):
             self._later(t, self._cts, st, 0)
-            t += self.rng.uniform(0.05, 0.47)
+            if self.late_after_hold is not None and i == nh - 1:
+                t += self.rng.uniform(*self.late_after_hold)
+            else:
+                t += self.rng.uniform(0.05, 0.47)
         self._later(t, self._grant, st)
 
     def _grant(self, st):
